@@ -206,6 +206,8 @@ pub fn c12(t: &Trace, r: &mut Report) {
     let mut start = 0;
     let mut prev: Option<Obs> = None;
     let mut in_lfo = false;
+    let mut sr = 0.0f64;
+    let mut cfg: Option<f64> = None; // frequency / sample rate as last configured (None until set_frequency is called)
     let ulp2 = 2.0 * (0.5f64).powi(23);
     for i in 0..t.ops.len() {
         let op = &t.ops[i];
@@ -216,12 +218,18 @@ pub fn c12(t: &Trace, r: &mut Report) {
             start = i;
             in_lfo = true;
             prev = parse(&t.obs[i]);
+            sr = fbits(op[2]) as f64;
+            cfg = None;
             continue;
         } else if op.len() >= 2 && op[1] == "new" {
             in_lfo = false;
         }
         if !in_lfo || !is_lfo_op(op) {
             continue;
+        }
+        if op[0] == "freq" {
+            let f = fbits(op[1]) as f64;
+            cfg = if f.is_finite() && f >= 0.0 && sr > 0.0 && f <= sr { Some(f / sr) } else { None };
         }
         let o = match parse(&t.obs[i]) {
             Some(o) => o,
@@ -238,7 +246,15 @@ pub fn c12(t: &Trace, r: &mut Report) {
                     // effect, C11), measured on the circle; on a tree where the counter itself jumps the outputs jump
                     // with it and that is a discontinuity of the waveform
                     let stepc = (p.inc % (1 << 24)) as f64;
-                    let step = stepc.min(P24 - stepc) / P24;
+                    let step_inc = stepc.min(P24 - stepc) / P24;
+                    // when a frequency in [0, sample rate] has been configured, the phase step is frequency / sample
+                    // rate (C11: a tick never advances by more than that, up to f32 rounding), whatever the counter does
+                    let step = match cfg {
+                        // (above half the sample rate the circular distance 1 - f/sr is realised up to one counter step
+                        // longer, so there the counter-derived step is the phase step)
+                        Some(c) if c <= 0.5 => c * (1.0 + (0.5f64).powi(22)),
+                        _ => step_inc,
+                    };
                     let wrapped = o.acc < p.acc;
                     r.nt(h2(p.acc >> 12, h2(wrapped as u64, (stepc.max(1.0).log2()) as u64)));
                     let ds = (o.sine as f64 - p.sine as f64).abs();
